@@ -168,3 +168,46 @@ def segment_summary(data, default_duration=None):
         dur += s['duration'] if 'duration' in s else (dd or 0)
     return {'seq': mfhd_seq(moof), 'tfdt': tfdt_time(traf), 'duration': dur, 'nsamples': tr['count'],
             'root': root, 'tfhd': th, 'trun': tr}
+
+
+def saio_offsets(traf):
+    b = traf.find('saio')
+    if b is None:
+        return None
+    v, flags, body = fullbox(b)
+    pos = 0
+    if flags & 1:
+        pos += 8
+    n = struct.unpack('>I', body[pos:pos + 4])[0]
+    pos += 4
+    out = []
+    for _ in range(n):
+        if v == 0:
+            out.append(struct.unpack('>I', body[pos:pos + 4])[0])
+            pos += 4
+        else:
+            out.append(struct.unpack('>Q', body[pos:pos + 8])[0])
+            pos += 8
+    return out
+
+
+PIFF_UUID = bytes.fromhex('a2394f525a9b4f14a2446c427c648df4')
+
+
+def senc_info(traf):
+    """-> dict(box, count, first_entry_pos (absolute), flags) for the senc box (not the PIFF copy)"""
+    b = traf.find('senc')
+    if b is None:
+        return None
+    v, flags, body = fullbox(b)
+    pos = 0
+    if flags & 1:
+        pos += 20
+    count = struct.unpack('>I', body[pos:pos + 4])[0]
+    return {'box': b, 'count': count, 'flags': flags, 'first_entry_pos': b.payload_start + 4 + pos + 4}
+
+
+def sample_sizes(traf):
+    th = tfhd_fields(traf)
+    tr = trun_fields(traf)
+    return [s.get('size', th['default_sample_size'] or 0) for s in tr['samples']]
